@@ -24,8 +24,14 @@ REQUIRED = [
     "DaeVerif.C20.Props.drain_wait_bounded",
     "DaeVerif.C20.Props.retirement_step_starts_clock",
     "DaeVerif.C20.Props.retirement_clock_bounded",
-    "DaeVerif.C20.Props.time_stops_at_retirement_deadline",
-    "DaeVerif.C20.Props.blocked_release_waits_at_most_budget",
+    "DaeVerif.C20.Props.clock_urgency_by_construction",
+    "DaeVerif.C20.Props.blocked_release_bounded_by_construction",
+    "DaeVerif.C20.Props.release_after_retirement",
+    "DaeVerif.C20.Props.worker_tail_is_inert",
+    "DaeVerif.C20.Props.abort_marker_goes_with_its_request",
+    "DaeVerif.C20.Props.muting_always_lifted",
+    "DaeVerif.C20.Props.mute_window_starts_at_last_end",
+    "DaeVerif.C20.Props.no_foreign_answer_in_progress",
     "DaeVerif.C20.Props.answered_full",
     "DaeVerif.C20.Props.answer_written_before_release",
 ]
